@@ -26,9 +26,25 @@ def record_main(argv):
     sys.stderr.write("C13DONE\n")
 
 
+def twopass_main(argv):
+    """--twopass seed tier out.pkl : the dense shortest-vector kernel's two-pass protocol on near-tie structures."""
+    seed, tier, out_path = int(argv[0]), argv[1], argv[2]
+    import phonopy._phonopy as phonoc
+
+    with open(out_path, "ab") as fo:
+        for st in K.neartie_structures(seed, tier):
+            sys.stderr.write("C13TWOPASS %s\n" % st["label"])
+            sys.stderr.flush()
+            pickle.dump(K.two_pass_dense(st, phonoc), fo)
+            fo.flush()
+    sys.stderr.write("C13DONE\n")
+
+
 def main(argv):
     if argv[0] == "--record":
         return record_main(argv[1:])
+    if argv[0] == "--twopass":
+        return twopass_main(argv[1:])
     cases_path, out_path, reps = argv[0], argv[1], int(argv[2])
     import phonopy._phonopy as phonoc
 
